@@ -60,6 +60,32 @@ def cache_history(ctx):
     return L, 0, 1760, {"flavour": flav, "entries": n, "dir": d}
 
 
+def move_across_history(ctx):
+    """directed: an entry is moved into a directory whose LAST cache block is exactly full (the move links a new cache block) or out of a
+    directory whose last cache block held only that entry (the move releases the block); the volume is unmounted right after the move, with
+    no other call in between that would write the bitmap - the image must be well formed as it is"""
+    rng = ctx.rng
+    flav = rng.choice([4, 5])
+    nl = rng.choice([25, 25, 16, 29])
+    rl = 25 + nl
+    per = 488 // (rl + (rl & 1))
+    k = per * rng.choice([1, 2, 3])
+    dst, src = hexs(b"dst"), hexs(b"src")
+    mk = lambda i: (b"f%03d_" % i + b"abcdefghijklmnopqrstuvwxyz0123")[:nl]
+    L = gen.dev_create("DD", flav) + ["mountdev 0", "mount 0 0", "mkdir - %s" % dst, "mkdir - %s" % src]
+    how = rng.choice(["in", "in", "out", "both"])
+    n_dst = k if how in ("in", "both") else rng.randint(1, 5)
+    n_src = (k + 1) if how in ("out", "both") else rng.randint(1, 5)
+    for i in range(n_dst):
+        L += ["open 0 %s %s w" % (dst, hexs(mk(i))), "close 0"]
+    for i in range(n_src):
+        L += ["open 0 %s %s w" % (src, hexs(mk(500 + i))), "close 0"]
+    L += ["free", "dump $W/img1", "spectree"]
+    L += ["mv %s %s %s %s" % (src, hexs(mk(500 + n_src - 1)), dst, hexs(mk(900)))]
+    L += ["free", "umount", "umountdev", "dump $W/img2", "spectree", "mountdev 0", "mount 0 0", "list %s 1 0" % dst, "list %s 1 0" % src, "free", "dump $W/img3", "spectree", "umount", "umountdev"]
+    return L, 0, 1760, {"flavour": flav, "name_len": nl, "per_block": per, "how": how, "dst_entries": n_dst, "src_entries": n_src}
+
+
 def block_sweep(ctx):
     """delete each record of the middle cache block in turn until it is empty, then refill"""
     rng = ctx.rng
